@@ -63,6 +63,9 @@ type Hooks struct {
 	// the lazy way - the first time it runs on a context it registers a keyword of its own (ctx.IsKeyword /
 	// ctx.RegisterKeywords, the API the library offers to user-written identifier parsers) - and then delegates
 	KeywordLeaves bool
+	// Budget is called at every call of a rune / keyword terminal (Guard.LeafTick): a repetition over an Any of many
+	// terminals can run millions of combinator calls inside ONE nonterminal body, where no other probe sits
+	Budget func(ctx *parsley.Context)
 }
 
 type Built struct {
@@ -99,6 +102,13 @@ func (b *Built) build(e *Expr, h *Hooks) parsley.Parser {
 				b.leaves[1000+int(e.C)] = UserRune(e.C, h.UserValueLeaves)
 			}
 			p = b.leaves[1000+int(e.C)]
+		}
+		if h.Budget != nil {
+			inner, budget := p, h.Budget
+			p = parser.Func(func(ctx *parsley.Context, lrc data.IntMap, pos parsley.Pos) (parsley.Node, data.IntSet, parsley.Error) {
+				budget(ctx)
+				return inner.Parse(ctx, lrc, pos)
+			})
 		}
 		if h.KeywordLeaves {
 			inner, kw := p, "kw-"+string(rune(e.C))
@@ -543,6 +553,7 @@ type Guard struct {
 	// parser was invoked (or later, never before) and ends inside the file
 	SpanViolation string
 	FileEnd       int // global position of the end of the file (0: span invariant off)
+	leafCalls     int
 }
 
 func NewGuard(base int) *Guard {
@@ -584,6 +595,20 @@ func (gd *Guard) Tick(ctx *parsley.Context) {
 	}
 	if ctx.CallCount() > gd.MaxCalls {
 		panic(BudgetExceeded{"parser calls"})
+	}
+}
+
+// LeafTick is the budget probe of the terminals: every 1024th terminal call it checks the call and heap budgets
+func (gd *Guard) LeafTick(ctx *parsley.Context) {
+	gd.leafCalls++
+	if gd.leafCalls&1023 != 0 {
+		return
+	}
+	if ctx.CallCount() > gd.MaxCalls {
+		panic(BudgetExceeded{"parser calls"})
+	}
+	if heapBytes() > MaxHeapBytes {
+		panic(BudgetExceeded{"heap bytes"})
 	}
 }
 
